@@ -8,7 +8,7 @@ For each one this script writes `lean/DrvMain/<Tag>.lean` (a three-line `main`) 
 It also rewrites the library root files NdnModel.lean / NdnGen.lean / NdnProofs.lean."""
 import os
 ROOT = os.path.dirname(os.path.dirname(os.path.abspath(__file__)))
-LEAN = os.path.join(ROOT, 'lean')
+LEAN = os.environ.get('VERIF_LEAN') or os.path.join(ROOT, 'lean')
 
 
 def write_if_changed(p, text):
